@@ -140,6 +140,9 @@ pub struct G {
     pub used: Vec<&'static str>,
     /// probability (out of 20) that a gap gets non-empty trivia
     pub density: usize,
+    /// "uniform" documents: every code gap gets this same trivia (blank lines at *every* gap of a
+    /// construct at once, e.g. around a comma: shapes that independent draws almost never produce)
+    pub uniform: Option<&'static str>,
 }
 
 impl G {
@@ -149,10 +152,22 @@ impl G {
         let bc = r.below(3) != 0;
         let off = r.below(6) == 0;
         let density = [2, 5, 10][r.below(3)];
-        G { r, lc, bc, off, used: vec![], density }
+        let uniform = match r.below(16) {
+            0 => Some("\n\n"),
+            1 => Some("\n"),
+            2 => Some("\n\n\n"),
+            3 => Some(" /* u */ "),
+            _ => None,
+        };
+        G { r, lc, bc, off, used: vec![], density, uniform }
     }
     /// trivia in code (between tokens inside delimiters or where a newline is harmless)
     pub fn t(&mut self) -> String {
+        if let Some(u) = self.uniform {
+            if self.r.below(8) != 0 {
+                return u.into();
+            }
+        }
         if self.r.below(20) >= self.density {
             return "".into();
         }
@@ -911,6 +926,14 @@ pub const TEMPLATES: &[&str] = &[
     "*¦strong¦ text¦*¦ and¦ _¦emph¦_\n",
     "text¦ #¦x¦ more¦ #f(¦1¦)¦;¦ end\n",
     "a¦ @ref¦ b¦ @ref¦[¦s¦]¦ <lab>\n",
+    "$ x + (¦a  +   b¦) $\n",
+    "$ [¦a¦]¦ {¦b   c¦} $\n",
+    "$ (¦\n  a  +   b\n      +    c¦\n) $\n",
+    "$ sqrt(¦a  b¦) mat(¦1,¦ 2;¦ 3,¦ 4¦) $\n",
+    "#f(¦\n  1,\n  2¦\n\n  ,¦\n\n)\n",
+    "text #f[- a¦\n          b¦] more¦\n",
+    "#f[- a¦ \\ ¦]\n",
+    "#[+ a¦\n   b¦]¦ #[/ T: d¦\n  e]\n",
     "#[¦a¦ b¦]¦\n",
     "#[¦\n  a¦\n\n  b¦\n]\n",
     "#f¦[¦a¦]¦[¦b¦]\n",
@@ -1022,6 +1045,10 @@ pub fn mal_case(idx: u64, fixtures: &Fixtures) -> (String, Cfg) {
         ":", ",", ";", ".", "..", "=>", "let", "if", "else", "for", "in", "while", "import", "include", "as",
         "show", "set", "context", "return", "not", "and", "or", "x", "f(", "1", "1.5em", "<a>", "@r", "\\", "\\u{1F600}",
         "é", "😀", "中", "a̐", "\u{0}", "#f(a, // c", "$sin( )$", "#{", "#[", "#(", "- ", "+ ", "/ T: ", "= H",
+        // numbers at the extremes, where the printer reads a number from the source
+        "#table(columns: 99999999999999999, [a], [b])", "#grid(columns: 9223372036854775807, [a])", "#table(columns: 0, [a], [b])",
+        "#table(columns: 0xffffffffffffffff, [a])", "99999999999999999999999999", "1e999", "0b1111111111111111111111111111111111111111111111111111111111111111111",
+        "#table(columns: (1fr,) * 99999999999, [a])",
     ];
     let src = match r.below(8) {
         0 => {
@@ -1067,7 +1094,11 @@ pub fn mal_case(idx: u64, fixtures: &Fixtures) -> (String, Cfg) {
         5 => {
             // deep nesting
             let d = 1 + r.below(200);
-            let pairs = [("(", ")"), ("[", "]"), ("{", "}"), ("f(", ")"), ("$(", ")$"), ("#[", "]"), ("(a, ", ")"), ("-", "")];
+            let pairs = [
+                ("(", ")"), ("[", "]"), ("{", "}"), ("f(", ")"), ("$(", ")$"), ("#[", "]"), ("(a, ", ")"), ("-", ""),
+                ("aaaa.bbbb.cccc(", ")"), ("a.b.c(x => d.e.f(", "))"), ("table(columns: 1, ", ")"), ("grid(columns: 2, [a], [#", "])"),
+                ("f(x)[#", "]"), ("if a { ", " } else { b }"), ("a + (b * ", ")"), ("(k: ", ")"), ("x => ", ""), ("mat(1, ", "; 2)"),
+            ];
             let (o, c) = pairs[r.below(pairs.len())];
             let mut s = String::from("#");
             for _ in 0..d {
@@ -1204,6 +1235,7 @@ pub fn imp_case(idx: u64) -> (String, Cfg) {
 pub const PERF_FAMILIES: &[&str] = &[
     "call", "chain", "array", "dict", "closure", "block", "content", "cond", "mathdelim", "list", "paren", "binary",
     "dotcall", "mathcall", "strong", "unary", "letdestruct", "args-content", "plainchain", "closure-call", "show-chain",
+    "table-nest", "grid-cell", "mat-nest", "set-content", "dict-closure",
 ];
 pub fn perf_case(fam: &str, d: usize) -> String {
     let rep = |o: &str, c: &str, core: &str| -> String {
@@ -1274,6 +1306,11 @@ pub fn perf_case(fam: &str, d: usize) -> String {
         "closure-call" => format!("#{}\n", rep("f(x => g.h.map(", "))", "x")),
         "show-chain" => format!("#show: {}\n", rep("a.b.with(c.d.e(", "))", "1")),
         "letdestruct" => format!("#let {} = y\n", rep("(a, ", ")", "b")),
+        "table-nest" => format!("#{}\n", rep("table(columns: 1, ", ")", "[x]")),
+        "grid-cell" => format!("#{}\n", rep("grid(columns: 2, [a], [#", "])", "x")),
+        "mat-nest" => format!("${}$\n", rep("mat(1, ", "; 2)", "x")),
+        "set-content" => format!("#{}\n", rep("set text(fill: f[#", "])", "x")),
+        "dict-closure" => format!("#{}\n", rep("(k: x => (j: ", "))", "1")),
         _ => {
             let mut s = String::from("#f");
             for _ in 0..d {
